@@ -7,6 +7,8 @@ pub enum Engine {
     EModelMatrix,
     /// pure proof monitors (no database)
     EProof,
+    /// recorded I/O: crash / power-loss images, injection, trace monitors
+    EIo,
 }
 
 pub struct Check {
@@ -140,6 +142,50 @@ pub fn checks() -> Vec<Check> {
             assumptions: A_MODEL,
         },
         Check {
+            id: "C03",
+            engine: Engine::EIo,
+            level: "fault_enumeration",
+            quick_cases: 32,
+            thorough_cases: 640,
+            quick_budget_s: 55,
+            thorough_budget_s: 1500,
+            rule: "case = one process-crash image: (recorded commit/overlay commit/rollback, log position k between any two hook events, choice for operations in flight: dropped / applied / random), built by the shadow disk from the event log, opened with the real code and compared (meta seqn, root, values, proofs, on-disk decode, one further commit and rollback) with exactly the pre- or the post-state; required state: pre before the meta write starts, post after it completed. Plus nested images (crash inside the recorded recovery of an image) and real `_exit` kills at event k in a forked child as cross-validation of the shadow model;                    non-trivial when k lies strictly inside the operation (after its first write, before its end); distinct = distinct (case, op, k, policy)",
+            assumptions: A_IO,
+        },
+        Check {
+            id: "C04",
+            engine: Engine::EIo,
+            level: "fault_enumeration",
+            quick_cases: 32,
+            thorough_cases: 640,
+            quick_budget_s: 55,
+            thorough_budget_s: 1500,
+            rule: "case = (a) one durability-order evaluation of a recorded operation's event log (everything the new state needs is completed and fsync-covered before the meta write starts; nothing on ht volatile when the WAL is truncated; success implies a completed meta fsync), and (b) one power-loss image: (operation, log position k, loss choice among lose-all / keep-all / lose one page / keep one page / torn last multi-page write / random subsets with prefix semantics for size-changing operations), opened and compared like C03 with required state = post once the meta fsync completed;                    non-trivial when the volatile set at k is non-empty and the choice drops something",
+            assumptions: A_IO,
+        },
+        Check {
+            id: "C14",
+            engine: Engine::EIo,
+            level: "fault_enumeration",
+            quick_cases: 32,
+            thorough_cases: 640,
+            quick_budget_s: 55,
+            thorough_budget_s: 1500,
+            rule: "case = one injection: the operation is re-run on a copy of its base image with EIO injected (once, or persistently from then on) at mutating event k (write, append, resize, fsync, directory fsync, io_uring page write); the call must return Err, is_poisoned() must be true, a further commit must be refused, and the directory reopened without faults must be exactly the pre- or post-state;                    non-trivial when k is not the first event of the operation; hangs are detected by the runner's stall watchdog (two gdb samples)",
+            assumptions: A_IO,
+        },
+        Check {
+            id: "C17",
+            engine: Engine::EIo,
+            level: "exploration",
+            quick_cases: 96,
+            thorough_cases: 2400,
+            quick_budget_s: 55,
+            thorough_budget_s: 1200,
+            rule: "case = one recorded sync: every write/resize/unlink event issued before the meta fsync completed is joined with the decoded pre-sync image (live ln/bbn pages, both free-list chains' own pages, full ht buckets and all occupancy-map pages, live rollback records) and must only touch pages that were free or beyond the frontier, the WAL, or space after the live end of a segment;                    non-trivial when the pre-sync image has a non-empty free list (so allocation order matters)",
+            assumptions: A_IO,
+        },
+        Check {
             id: "C16",
             engine: Engine::EModel,
             level: "exploration",
@@ -196,6 +242,12 @@ pub fn checks() -> Vec<Check> {
         },
     ]
 }
+
+const A_IO: &[&str] = &[
+    "the cfg-guarded I/O hook reports every mutating file operation of an existing store (recorder completeness is cross-checked by real _exit kills)",
+    "fault model = the quantifier text: fsync makes durable what completed before it started; unsynced in-place page writes are lost independently; unsynced size-changing operations keep a prefix; no reordering inside a completed fsync, no bit rot",
+    "boundaries and loss subsets are sampled (all sync-point neighbourhoods + random), not exhaustively enumerated",
+];
 
 const A_DECODE: &[&str] = &[
     "the decoder re-implements the file formats from their layout comments; PageId::decode/encode and the xxh3 seed rule are taken from nomt_core/twox-hash (trusted)",
